@@ -55,7 +55,7 @@ def strategy_(d, tier):
         items = []
         for _ in range(d.int(2, 12)):
             k = d.weighted([(5, "data"), (3, "ins"), (2, "lab"), (2, "mac"), (1, "inc"), (2, "phase"), (1, "seg"),
-                            (1, "res"), (1, "org"), (2, "macx"), (1, "mexp"), (1, "lst"), (3, "wdata")])
+                            (1, "res"), (1, "org"), (2, "macx"), (1, "mexp"), (1, "lst"), (3, "wdata"), (2, "savres")])
             if k == "wdata":
                 # 16/32-bit data: the listing shows words, whose byte order must be the target's on every line;
                 # counts reach beyond the 512 byte code buffer of the code file writer
@@ -70,7 +70,7 @@ def strategy_(d, tier):
                 items.append(["org", d.int(0, 0x300)])
             elif k == "res":
                 items.append(["res", d.int(1, 9)])
-            elif k in ("mexp", "lst"):
+            elif k in ("mexp", "lst", "savres"):
                 items.append([k, d.int(0, 7)])
             else:
                 items.append([k])
@@ -200,6 +200,23 @@ def render(case):
                     add("\torg %d" % (0x30 + 8 * si))
                     add("%s:\tds 2" % lab())
                     feats.add("dataseg")
+            elif k == "savres" and inseg == "code" and not phased:
+                # SAVE ... RESTORE around a change of segment / listing mode / program counter: the code that follows
+                # RESTORE continues in the saved segment at its program counter
+                add("\tsave")
+                v = it[1]
+                if cpu == "8051" and v % 4:
+                    add("\tsegment %s" % ("data" if v & 2 else "xdata"))
+                    add("\torg %d" % (0x40 + 4 * (v & 4)))
+                    add("%s:\tds %d" % (lab(), 1 + (v >> 1)))
+                    feats.add("save-segment-restore")
+                else:
+                    add("\tlisting %s" % ("off" if v & 2 else "noskipped"))
+                    if v & 4:
+                        add("\tnop")
+                    feats.add("save-listing-restore")
+                add("\trestore")
+                add("%s:\t%s %d,%d" % (lab(), datop, 7 + v, 9), code=True)
             elif k == "res" and not phased:
                 add("%s:\t%s %d" % (lab(), resop, it[1]))
             elif k == "org" and not phased and inseg == "code" and cpu != "16c84":
